@@ -125,6 +125,9 @@ enum iauth_flags {
     IAUTH_GOT_HURRY_UP,
     /** Set when we get blank 'u' message, but have not gotten 'U'. */
     IAUTH_EMPTY_IDENT,
+    /** Set when the request timeout has expired; soft holds no longer
+     * delay the decision after that. */
+    IAUTH_TIMED_OUT,
     /** Sentinel/count value for IAuth flags. */
     IAUTH_NUM_FLAGS
 };
